@@ -35,7 +35,8 @@ def record(ctx, quick):
         cmds.append(([PY, RUN, "enum", cf, of, str(ctx.seed * 8 + j), "1" if quick else "6"], pyenv()))
         files.append(of)
     for j in range(4):
-        for mode, n in (("batch", 400 if quick else 6000), ("fuzz", 1200 if quick else 20000), ("jc", 200 if quick else 3000)):
+        for mode, n in (("batch", 400 if quick else 6000), ("fuzz", 1200 if quick else 20000), ("jc", 200 if quick else 3000),
+                        ("hist", 150 if quick else 2500)):
             of = ctx.path("d%s%d.json" % (mode, j))
             cmds.append(([PY, RUN, mode, str(n), of, str(ctx.seed * 8 + j)], pyenv()))
             files.append(of)
@@ -49,12 +50,13 @@ def sig_of(name, r):
 
 
 def judge_files(ctx, files, mine):
+    from concurrent.futures import ThreadPoolExecutor
     accepted = 0
-    for f in files:
+    files = [f for f in files if json.load(open(f))]
+    with ThreadPoolExecutor(max_workers=6) as ex:
+        verdicts = list(ex.map(lambda f: casejudge.judge(ctx, "DispatcherJudge", f, "DispatcherJudge.cfg"), files))
+    for f, (fails, _) in zip(files, verdicts):
         recs = json.load(open(f))
-        if not recs:
-            continue
-        fails, _ = casejudge.judge(ctx, "DispatcherJudge", f, "DispatcherJudge.cfg")
         for i, r in enumerate(recs, 1):
             ctx.cov["evaluations"] += 1
             key = "%s|%s|%s|%s" % (r["sv"], r["dk"], r["bk"], "|".join(json.dumps([e["mc"], e["v"]["keys"]]) for e in r["entries"]))
